@@ -447,14 +447,35 @@ func checkNoSharedState(c *Ctx) {
 		}
 		info := fi.Info()
 		fresh := false
-		ast.Inspect(fi.Decl.Body, func(m ast.Node) bool {
-			if un, ok := m.(*ast.UnaryExpr); ok && un.Op == token.AND {
-				if cl, ok := un.X.(*ast.CompositeLit); ok && typeIs(info.TypeOf(cl), pp, "state") {
+		freshLit := func(inf *types.Info, body *ast.BlockStmt) bool {
+			hit := false
+			ast.Inspect(body, func(m ast.Node) bool {
+				if un, ok := m.(*ast.UnaryExpr); ok && un.Op == token.AND {
+					if cl, ok := un.X.(*ast.CompositeLit); ok && typeIs(inf.TypeOf(cl), pp, "state") {
+						hit = true
+					}
+				}
+				return true
+			})
+			return hit
+		}
+		fresh = freshLit(info, fi.Decl.Body)
+		if !fresh {
+			// a package-local constructor that builds the state literal (and stores nothing package-level: covered above)
+			for _, call := range callsIn(fi.Decl.Body, false) {
+				fn := calleeOf(info, call)
+				if fn == nil || fn.Pkg() == nil || fn.Pkg().Path() != pp {
+					continue
+				}
+				sig := fn.Type().(*types.Signature)
+				if sig.Results().Len() < 1 || !typeIs(derefType(sig.Results().At(0).Type()), pp, "state") {
+					continue
+				}
+				if g := c.FuncInfoOf(fn); g != nil && g.Decl.Body != nil && freshLit(g.Info(), g.Decl.Body) {
 					fresh = true
 				}
 			}
-			return true
-		})
+		}
 		var recv types.Object
 		if len(fi.Decl.Recv.List[0].Names) > 0 {
 			recv = info.ObjectOf(fi.Decl.Recv.List[0].Names[0])
